@@ -12,3 +12,16 @@ package main
 //@   ensures [linker_version_wins_and_v_is_stripped]
 //@        let v = (version != "" ? version : old(i.GitVersion)) ::
 //@        i.GitVersion == ((hasPrefix(v, "v") && svValid(v)) ? substr(v, 1, len(v) - 1) : v)
+
+// C18 / C10: the build command is created with the build's version first and the build info second (the version gate
+// compares against the former), the process exits with a non-zero status exactly when the command returned an error.
+//@ func buildInfo pure
+//@   property C18 C08
+//@   ensures [starts_with_the_version] hasPrefix(result, v.GitVersion)
+//@ func main
+//@   property C10 C18 C12
+//@   ensures [version_first_build_info_second] exists k int :: old(tlen()) <= k && k < tlen() && evIs(k, "internal/cmd:NewBuildCmd")
+//@        && evS1(k) == bv.GitVersion && evS2(k) == buildInfo(bv)
+//@   ensures [nonzero_exit_iff_error] tlen() > old(tlen()) && (evIs(tlen() - 1, "os.Exit")
+//@        ? (tlen() - 2 >= old(tlen()) && evIs(tlen() - 2, "github.com/spf13/cobra.(*Command).Execute") && evErr(tlen() - 2) != nil)
+//@        : (evIs(tlen() - 1, "github.com/spf13/cobra.(*Command).Execute") && evErr(tlen() - 1) == nil))
